@@ -54,7 +54,7 @@ pub fn penalties(r: &mut Rng, hostile: bool) -> Pen {
     };
     let mut p = Pen { nline: small(r), overflow: small(r), frac: r.below(9), short: small(r), hyphen: small(r) };
     if hostile {
-        let big: &[usize] = &[usize::MAX, usize::MAX - 1, 1 << 53, (1 << 53) + 1, u32::MAX as usize, 1 << 31];
+        let big: &[usize] = &[usize::MAX, usize::MAX - 1, crate::rng::P53, crate::rng::P53_PLUS_1, u32::MAX as usize, 1 << 31];
         for slot in 0..5 {
             if r.chance(1, 5) {
                 let v = *r.pick(big);
@@ -133,8 +133,8 @@ pub fn width(r: &mut Rng, len: usize, dw: usize) -> usize {
         26 => r.range(40, 120),
         27 => usize::MAX,
         28 => usize::MAX - 1,
-        29 => 1 << 53,
-        30 => (1 << 53) + 1,
+        29 => crate::rng::P53,
+        30 => crate::rng::P53_PLUS_1,
         _ => r.range(0, 6),
     }
 }
